@@ -2,6 +2,8 @@
 
 package piecepicker
 
+import "github.com/cenkalti/rain/v2/internal/peer"
+
 // EdgeFlags returns the FileHead / FileTail marks computed at construction.
 func (p *PiecePicker) EdgeFlags() (head, tail []bool) {
 	for i := range p.pieces {
@@ -16,3 +18,8 @@ func (p *PiecePicker) Endgame() bool { return p.endgame }
 
 // MaxWebseedPieces returns the gap length limit computed at construction.
 func (p *PiecePicker) MaxWebseedPieces() int { return p.maxWebseedPieces }
+
+// StalledMarks returns the peers in the Snubbed and Choked sets of piece i.
+func (p *PiecePicker) StalledMarks(i uint32) (snubbed, choked []*peer.Peer) {
+	return p.pieces[i].Snubbed.Items, p.pieces[i].Choked.Items
+}
